@@ -473,3 +473,36 @@ child:
     c2:
       action: std.noop
 """
+
+
+CHAIN3 = """
+version: '2.0'
+wf:
+  tasks:
+    a:
+      action: std.noop
+      on-success: b
+    b:
+      action: std.noop
+      on-success: c
+    c:
+      action: std.noop
+"""
+
+SUBWF_PLAIN = """
+version: '2.0'
+parent:
+  tasks:
+    p1:
+      workflow: child
+      on-success: p2
+    p2:
+      action: std.noop
+child:
+  tasks:
+    c1:
+      action: std.noop
+      on-success: c2
+    c2:
+      action: std.noop
+"""
